@@ -907,6 +907,20 @@ class UserCellsImpl(CellsImpl):
 
         self.spmgr.set_cells_formula(self, funcdef)
 
+    def set_allow_none(self, value):
+        """Set allow_none of self and of the cells derived from self
+
+        Derived cells take over allow_none of their base cells as they do
+        in on_inherit. ItemSpaces holding copies of the cells are discarded.
+        """
+        for space in self.spmgr._get_subs(self.parent, skip_self=False):
+            c = space.cells[self.name]
+            if c is self or (
+                    c.is_derived() and self.spmgr.get_deriv_bases(
+                        c, defined_only=True)[0] is self):
+                space.clear_subs_rootitems()
+                c.allow_none = value
+
     def on_rename(self, name):
         """Renames the Cells name
 
